@@ -249,7 +249,7 @@ R15B_EXCEPTIONS = {
 
 @rule(
     "R15b",
-    ["C15", "C19", "C16", "C18"],
+    ["C15", "C19", "C16", "C18", "C08", "C03"],
     """MEMO-KEY COMPLETENESS: for every memo idiom over an inventoried cache (`if key in C: return C[key]; v = f(...); C[key] =
     v` or `if key not in C: ...; C[key] = v`), every function parameter / expression operand that the miss path reads
     must be mentioned by the key expression (directly, as x._name, or through a token of it). Sibling sites that
